@@ -7,7 +7,6 @@ import (
 	"encoding/binary"
 	"fmt"
 	"os"
-	"sort"
 	"strings"
 	"sync"
 
@@ -21,7 +20,6 @@ import (
 	"github.com/algorand/go-algorand/data/transactions/logic"
 	"github.com/algorand/go-algorand/data/txntest"
 	"github.com/algorand/go-algorand/ledger/eval"
-	"github.com/algorand/go-algorand/ledger/ledgercore"
 	"github.com/algorand/go-algorand/protocol"
 )
 
@@ -179,9 +177,11 @@ var engcDebugRej = os.Getenv("ENGC_DEBUG_REJ") != ""
 
 var engcProgOnce sync.Once
 var engcProgs struct {
-	approvalA, approvalB, clear []byte
+	approvalA, approvalB, clear, clearB []byte
 }
 
+// engcPrograms returns the approval program (v10), its update variant (v11) and the clear programs of both versions
+// (an update must carry approval and clear programs of the same version).
 func engcPrograms() (approvalA, approvalB, clear []byte) {
 	engcProgOnce.Do(func() {
 		asm := func(src string) []byte {
@@ -194,6 +194,7 @@ func engcPrograms() (approvalA, approvalB, clear []byte) {
 		engcProgs.approvalA = asm("#pragma version 10\n" + engcApprovalSrc)
 		engcProgs.approvalB = asm("#pragma version 11\n" + engcApprovalSrc)
 		engcProgs.clear = asm("#pragma version 10\nint 1")
+		engcProgs.clearB = asm("#pragma version 11\nint 1")
 	})
 	return engcProgs.approvalA, engcProgs.approvalB, engcProgs.clear
 }
@@ -656,9 +657,9 @@ func (g *engcGen) build(kind string) *txntest.Txn {
 			}
 			a, b, c := engcPrograms()
 			tx.Sender, tx.OnCompletion = creator, transactions.UpdateApplicationOC
-			tx.ApprovalProgram, tx.ClearStateProgram = b, c
+			tx.ApprovalProgram, tx.ClearStateProgram = b, engcProgs.clearB
 			if rapid.Bool().Draw(t, "updBack") {
-				tx.ApprovalProgram = a
+				tx.ApprovalProgram, tx.ClearStateProgram = a, c
 			}
 		case "app-delete":
 			if g.spendable(creator) == 0 {
@@ -760,10 +761,22 @@ func engcStartEval(l *Ledger) (*eval.BlockEvaluator, error) {
 	return eval.StartEvaluator(l, nextHdr, eval.EvaluatorOptions{Generate: true, Validate: true, Tracer: logic.EvalErrorDetailsTracer{}})
 }
 
-// StepBlock builds one block through the real evaluator (generate+validate mode), validates it with
-// Ledger.Validate on the pre-block state, adds it, folds it into the model and waits for quiescence.
-// ngroups < 0 draws the number of groups.
-func (w *engcWorld) StepBlock(t *rapid.T, ngroups int) *engcBlockInfo {
+// engcBlockBuilder is a block under construction: BeginBlock, then any number of Submit*/RandomGroups, then Finish.
+type engcBlockBuilder struct {
+	w     *engcWorld
+	Eval  *eval.BlockEvaluator
+	Gen   *engcGen // generator context (model state at the start of the block)
+	Info  *engcBlockInfo
+	Round basics.Round
+
+	// Proposer / Eligible override the drawn proposer when ProposerSet is true.
+	ProposerSet bool
+	Proposer    basics.Address
+	Eligible    bool
+}
+
+// BeginBlock starts the evaluator for round latest+1 (generate+validate mode, like upstream nextBlock()).
+func (w *engcWorld) BeginBlock(t *rapid.T) *engcBlockBuilder {
 	l := w.Node.L
 	w.Node.Quiesce()
 	ev, err := engcStartEval(l)
@@ -774,105 +787,124 @@ func (w *engcWorld) StepBlock(t *rapid.T, ngroups int) *engcBlockInfo {
 	if round != w.Model.Latest()+1 {
 		t.Fatalf("ENGINE: evaluator round %d, model latest %d", round, w.Model.Latest())
 	}
-	maxG := w.Opts.MaxGroupsPerBlock
-	if maxG == 0 {
-		maxG = 8
-	}
-	if ngroups < 0 {
-		if rapid.IntRange(0, 7).Draw(t, "emptyBlock") == 0 {
-			ngroups = 0
-		} else {
-			ngroups = rapid.IntRange(1, maxG).Draw(t, "ngroups")
-		}
-	}
-	info := &engcBlockInfo{Round: round, Pre: w.Model.Tip()}
-	g := w.newGen(t, round)
-	for gi := 0; gi < ngroups; gi++ {
-		size := rapid.SampledFrom([]int{1, 1, 1, 1, 1, 1, 2, 2, 2, 3, 4}).Draw(t, "gsize")
-		var txs []*txntest.Txn
-		res := engcGroupResult{}
-		for i := 0; i < size; i++ {
-			tx, kind := g.txn()
+	return &engcBlockBuilder{w: w, Eval: ev, Gen: w.newGen(t, round), Round: round, Info: &engcBlockInfo{Round: round, Pre: w.Model.Tip()}}
+}
+
+// Submit fills defaults (fee, validity window, genesis hash, unique note unless one is set), groups the transactions
+// when there is more than one, sets AuthAddr for rekeyed senders (from the model state at block start) and submits
+// the group to the evaluator (TestTransactionGroup, then TransactionGroup). A rejection is recorded, not fatal.
+func (b *engcBlockBuilder) Submit(kinds []string, txs ...*txntest.Txn) error {
+	w := b.w
+	for _, tx := range txs {
+		if tx.Note == nil {
 			w.noteCtr++
 			tx.Note = engcItob(w.noteCtr)
-			fillDefaults(w.tb, l, ev, tx)
-			txs = append(txs, tx)
-			res.Kinds = append(res.Kinds, kind)
 		}
-		var stxns []transactions.SignedTxn
-		if size == 1 {
-			stxns = []transactions.SignedTxn{txs[0].SignedTxn()}
-		} else {
-			stxns = txntest.Group(txs...)
-		}
-		for i := range stxns {
-			auth := g.s.Acct(stxns[i].Txn.Sender).Data.AuthAddr
-			if !auth.IsZero() && auth != stxns[i].Txn.Sender {
-				stxns[i].AuthAddr = auth
-			}
-		}
-		err := ev.TestTransactionGroup(stxns)
-		if err == nil {
-			err = ev.TransactionGroup(transactions.WrapSignedTxnsWithAD(stxns)...)
-		}
-		res.Txns, res.Err = stxns, err
-		info.Groups = append(info.Groups, res)
-		for _, k := range res.Kinds {
-			if err == nil {
-				w.label("txn-ok:" + k)
-			} else {
-				w.label("txn-rej:" + k)
-			}
-		}
-		if err != nil && engcDebugRej {
-			msg := err.Error()
-			if i := strings.Index(msg, ": "); i >= 0 && strings.HasPrefix(msg, "transaction ") {
-				msg = msg[i+2:]
-			}
-			if len(msg) > 70 {
-				msg = msg[:70]
-			}
-			w.label("why:" + strings.Join(res.Kinds, "+") + ": " + msg)
-		}
-		if err == nil {
-			w.Accepted++
-			w.label("group-accepted")
-		} else {
-			w.Rejected++
-			w.label("group-rejected")
-		}
-		for _, f := range w.onGroup {
-			f(&info.Groups[len(info.Groups)-1])
+		fillDefaults(w.tb, w.Node.L, b.Eval, tx)
+	}
+	var stxns []transactions.SignedTxn
+	if len(txs) == 1 {
+		stxns = []transactions.SignedTxn{txs[0].SignedTxn()}
+	} else {
+		stxns = txntest.Group(txs...)
+	}
+	for i := range stxns {
+		auth := b.Gen.s.Acct(stxns[i].Txn.Sender).Data.AuthAddr
+		if !auth.IsZero() && auth != stxns[i].Txn.Sender {
+			stxns[i].AuthAddr = auth
 		}
 	}
+	return b.SubmitSigned(kinds, stxns)
+}
 
-	// proposer: any account that exists; payout only if it would be eligible under the agreement rules
-	pre := info.Pre
-	var prps []basics.Address
-	for _, u := range w.Users {
-		if !pre.Acct(u).IsEmpty() {
-			prps = append(prps, u)
+// SubmitSigned submits an already built group as is (for replays, bad authorizers, hand-made groups).
+func (b *engcBlockBuilder) SubmitSigned(kinds []string, stxns []transactions.SignedTxn) error {
+	w := b.w
+	err := b.Eval.TestTransactionGroup(stxns)
+	if err == nil {
+		err = b.Eval.TransactionGroup(transactions.WrapSignedTxnsWithAD(stxns)...)
+	}
+	res := engcGroupResult{Kinds: kinds, Txns: stxns, Err: err}
+	b.Info.Groups = append(b.Info.Groups, res)
+	for _, k := range kinds {
+		if err == nil {
+			w.label("txn-ok:" + k)
+		} else {
+			w.label("txn-rej:" + k)
 		}
 	}
-	prp := w.Sink
-	if len(prps) > 0 && rapid.IntRange(0, 9).Draw(t, "sinkProposer") != 0 {
-		prp = prps[rapid.IntRange(0, len(prps)-1).Draw(t, "proposer")]
+	if err != nil && engcDebugRej {
+		msg := err.Error()
+		if i := strings.Index(msg, ": "); i >= 0 && strings.HasPrefix(msg, "transaction ") {
+			msg = msg[i+2:]
+		}
+		if len(msg) > 70 {
+			msg = msg[:70]
+		}
+		w.label("why:" + strings.Join(kinds, "+") + ": " + msg)
+	}
+	if err == nil {
+		w.Accepted++
+		w.label("group-accepted")
+	} else {
+		w.Rejected++
+		w.label("group-rejected")
+	}
+	for _, f := range w.onGroup {
+		f(&b.Info.Groups[len(b.Info.Groups)-1])
+	}
+	return err
+}
+
+// RandomGroups submits n generated groups of 1-4 transactions chosen from the model state at block start.
+func (b *engcBlockBuilder) RandomGroups(t *rapid.T, n int) {
+	for gi := 0; gi < n; gi++ {
+		size := rapid.SampledFrom([]int{1, 1, 1, 1, 1, 1, 2, 2, 2, 3, 4}).Draw(t, "gsize")
+		var txs []*txntest.Txn
+		var kinds []string
+		for i := 0; i < size; i++ {
+			tx, kind := b.Gen.txn()
+			txs = append(txs, tx)
+			kinds = append(kinds, kind)
+		}
+		_ = b.Submit(kinds, txs...)
+	}
+}
+
+// Finish generates the block, picks a proposer, validates the block with Ledger.Validate on the pre-block state,
+// calls the OnValidated hooks, adds the block (AddValidatedBlock; the shadow gets it through AddBlock), folds it into
+// the model, waits for quiescence and calls the OnBlock hooks.
+func (b *engcBlockBuilder) Finish(t *rapid.T) *engcBlockInfo {
+	w, ev, info, round := b.w, b.Eval, b.Info, b.Round
+	l := w.Node.L
+	pre := info.Pre
+	prp, eligible := b.Proposer, b.Eligible
+	if !b.ProposerSet {
+		// proposer: any user account that exists; payout only if it would be eligible under the agreement rules
+		var prps []basics.Address
+		for _, u := range w.Users {
+			if !pre.Acct(u).IsEmpty() {
+				prps = append(prps, u)
+			}
+		}
+		prp = w.Sink
+		if len(prps) > 0 && rapid.IntRange(0, 9).Draw(t, "sinkProposer") != 0 {
+			prp = prps[rapid.IntRange(0, len(prps)-1).Draw(t, "proposer")]
+		}
+		pd := pre.Acct(prp).Data
+		pbal := pd.MicroAlgos.Raw + engcPendingRewards(pd.Status, pd.MicroAlgos.Raw, pd.RewardsBase, pre.RewardsLevel, pre.Proto.RewardUnit)
+		eligible = w.Proto.Payouts.Enabled && pd.Status == basics.Online && pd.IncentiveEligible &&
+			pbal >= w.Proto.Payouts.MinBalance && pbal <= w.Proto.Payouts.MaxBalance
+		if eligible && rapid.IntRange(0, 7).Draw(t, "altruistic") == 0 {
+			eligible = false
+		}
 	}
 	ub, err := ev.GenerateBlock([]basics.Address{prp})
 	if err != nil {
 		t.Fatalf("ENGINE: GenerateBlock round %d: %v", round, err)
 	}
-	pd := pre.Acct(prp).Data
-	pbal := pd.MicroAlgos.Raw + engcPendingRewards(pd.Status, pd.MicroAlgos.Raw, pd.RewardsBase, pre.RewardsLevel, pre.Proto.RewardUnit)
-	eligible := w.Proto.Payouts.Enabled && pd.Status == basics.Online && pd.IncentiveEligible &&
-		pbal >= w.Proto.Payouts.MinBalance && pbal <= w.Proto.Payouts.MaxBalance
-	if eligible && rapid.IntRange(0, 7).Draw(t, "altruistic") == 0 {
-		eligible = false
-	}
 	genDelta := ub.UnfinishedDeltas()
-	if d, ok := genDelta.Accts.GetData(prp); ok && d.IsZero() {
-		eligible = false // the proposer closed its account in this very block
-	}
+	// FinishBlock (what agreement calls) drops the payout by itself when the proposer emptied its account in this block
 	blk := ub.FinishBlock(committee.Seed(prp), prp, eligible)
 	vb, err := l.Validate(context.Background(), blk, nil)
 	if err != nil {
@@ -919,6 +951,25 @@ func (w *engcWorld) StepBlock(t *rapid.T, ngroups int) *engcBlockInfo {
 	return info
 }
 
+// StepBlock = BeginBlock + RandomGroups + Finish. ngroups < 0 draws the number of groups (0 with probability 1/8,
+// else 1..MaxGroupsPerBlock).
+func (w *engcWorld) StepBlock(t *rapid.T, ngroups int) *engcBlockInfo {
+	b := w.BeginBlock(t)
+	maxG := w.Opts.MaxGroupsPerBlock
+	if maxG == 0 {
+		maxG = 8
+	}
+	if ngroups < 0 {
+		if rapid.IntRange(0, 7).Draw(t, "emptyBlock") == 0 {
+			ngroups = 0
+		} else {
+			ngroups = rapid.IntRange(1, maxG).Draw(t, "ngroups")
+		}
+	}
+	b.RandomGroups(t, ngroups)
+	return b.Finish(t)
+}
+
 func engcCountAccepted(gs []engcGroupResult) int {
 	n := 0
 	for _, g := range gs {
@@ -930,15 +981,3 @@ func engcCountAccepted(gs []engcGroupResult) int {
 }
 
 func engcShort(a basics.Address) string { return a.String()[:6] }
-
-// engcSortedKeys returns the sorted keys of a map with ordered keys (helper for deterministic iteration in checks).
-func engcSortedKeys[K ~uint64 | ~string, V any](m map[K]V) []K {
-	out := make([]K, 0, len(m))
-	for k := range m {
-		out = append(out, k)
-	}
-	sort.Slice(out, func(i, j int) bool { return out[i] < out[j] })
-	return out
-}
-
-var _ = ledgercore.AccountData{}
